@@ -358,6 +358,20 @@ theorem C03_file_read_sound (blocks : Nat → Bytes) (segs : List Seg)
         have : s.length < p1.segOff := by omega
         simp [this]
 
+/-- **No answer makes the cached read crash** (finding F3a, fixed). For every locator (any size
+hint, also one that does not fit 32 bits, or none), retry count, probe order and server script
+(any Content-Length, any body), the fetch of BlockCache.Get ends in data or in an error class
+other than `panic`; and an accepted answer whose size exceeds the buffer (`bufSize loc`, from the
+32-bit parse of the hint, default 64 MiB) is an error with no data, whatever the body. -/
+theorem C03_fetch_never_panics (hash : Bytes → D) (digest : List Char → D)
+    (loc : List Char) (tries : Nat) (order : List Nat) (g : G) :
+    (fetch hash digest loc tries order g).1.err ≠ some .panic ∧
+    (∀ check body expect, bufSize loc < expect →
+      fetchBody hash check (bufSize loc) body expect = { data := [], err := some .proto }) := by
+  refine ⟨fetch_ne_panic hash digest loc tries order g, ?_⟩
+  intro check body expect h
+  simp [fetchBody, h]
+
 /-! ## The consistency hypothesis is needed (notes O2, O3)
 
 `C03_cache_exact` and `C03_bad_never_cached_exact` assume that every locator's size hint is the size
@@ -426,6 +440,13 @@ example : (fetch (fun x : Bytes => x) (fun _ => [1, 2, 3]) "0123456789abcdef0123
 /-- …while the same answer with its Content-Length declared is rejected at once. -/
 example : (fetch (fun x : Bytes => x) (fun _ => [1, 2, 3]) "0123456789abcdef0123456789abcdef+2".toList 1 [0]
     { scripts := [[.ok (some 3) exBody]] }).1.err = some .proto := by decide
+
+/-- F3a witnesses in the model: a hint of 2^31 answered without Content-Length, and a hint-less locator
+answered with Content-Length 70 000 000, are errors (they used to be `panic`). -/
+example : (fetch (fun x : Bytes => x) (fun _ => [1, 2, 3]) "0123456789abcdef0123456789abcdef+2147483648".toList 1 [0]
+    { scripts := [[.ok none exBody]] }).1 = { data := [], err := some .proto } := by decide
+example : (fetch (fun x : Bytes => x) (fun _ => [1, 2, 3]) "0123456789abcdef0123456789abcdef".toList 1 [0]
+    { scripts := [[.ok (some 70000000) exBody]] }).1 = { data := [], err := some .proto } := by decide
 
 /-- the transition system reaches states with finished entries and delivered results -/
 example (out : Key → Entry → Prop) (k : Key) (e : Entry) (h : out k e) :
